@@ -799,6 +799,16 @@ func (bal *Balancer) balanceBlock(blkid arvados.SizedDigest, blk *BlockState) ba
 	blockState := computeBlockState(slots, nil, len(blk.Replicas), 0)
 
 	var lost bool
+	if len(blk.Replicas) == 0 {
+		// Referenced, but no replica anywhere: lost, even if
+		// there is no writable slot (or no slot of a desired
+		// class) where we would want to put a replica.
+		for _, desired := range blk.Desired {
+			if desired > 0 {
+				lost = true
+			}
+		}
+	}
 	var changes []string
 	for _, slot := range slots {
 		// TODO: request a Touch if Mtime is duplicated.
